@@ -202,7 +202,30 @@ def run(F, tier, res):
         okx += 1
     else:
         res.violate('EXIT', 'drop-wait', 'Drop for OutputType does not wait for the pager child: delta can exit (and the terminal be restored) before the pager does', where=drops[0] if drops else '-')
-    res.rule('C18.EXIT', nx, 4, 'process::exit call sites + the pager wait in Drop for OutputType', discharged=okx)
+    # no abrupt exit once the pager exists: between the creation of the output handle in run_app and its return, nothing that can
+    # reach process::exit may be called, other than the renderer itself (whose aborts are C03.P4's business) - process::exit skips
+    # Drop for OutputType, so delta would leave before the pager and replace the status it is about to return
+    EXIT_OK_AFTER_PAGER = {'delta::delta': 'the renderer (explicit aborts triaged by C03.P4)', 'config::delta_unreachable': 'unreachable match arm'}
+    direct_exit = [q for q in F.fn_bodies for _, cc in F.calls(q) if callee_of(cc) == 'std::process::exit']
+    exiters = F.reverse_reaching(direct_exit)
+    for q in ra:
+        fm = [i for i, cc in F.calls(q) if callee_of(cc).endswith('OutputType::from_mode')]
+        if not fm:
+            res.anchor_missing('OutputType::from_mode call in run_app')
+            continue
+        after = set()
+        for b in fm:
+            after |= reach(F.cfg(q), F.cfg(q).get(b, []))
+        for i, cc in F.calls(q):
+            cal = callee_of(cc)
+            if i in after and (cal in exiters or cal == 'std::process::exit'):
+                nx += 1
+                if cal in EXIT_OK_AFTER_PAGER:
+                    okx += 1
+                else:
+                    res.violate('EXIT', 'fn=%s;after-pager;callee=%s' % (q, cal), 'run_app calls %s, which can end the process with process::exit, while the pager handle is alive: '
+                                'delta exits before the pager does (Drop is skipped) and the status being passed through is replaced' % cal, where=F.span_of_call(cc))
+    res.rule('C18.EXIT', nx, 6, 'process::exit call sites + the pager wait in Drop for OutputType', discharged=okx)
     # ---------- STATUS
     rets = []
     for b in blocks:
